@@ -265,9 +265,15 @@ func (r *run) exec(thread int, idx int, st step) {
 		if err == nil {
 			c := dbh.Content(id, n)
 			off := 0
+			scratch := make([]byte, n) // re-used for every Write and overwritten after it
 			for _, x := range split {
 				if err == nil {
-					_, err = f.Write(c[off : off+x])
+					wb := scratch[:x]
+					copy(wb, c[off:off+x])
+					_, err = f.Write(wb)
+					for i := range wb {
+						wb[i] = 0xEE
+					}
 				}
 				off += x
 			}
